@@ -8,20 +8,34 @@ PROP = {'streams': [('c15', 1500, 60000)],
          'all (thorough); per run: Ok(d) => d = is_authorized; otherwise InsufficientIterations only; Ok at b => same Ok at b+1; budget > n => Ok; '
          'loader calls <= budget; model lines for the exact loader (budgets <= 6, first deciding, >= n); non-trivial = at least one loading round '
          'needed; distinct by policies + request + store',
- 'theorems': ['budget_monotone', 'budget_monotone_le', 'enough_budget', 'batched_decision_sound_partial', 'loop_inv', 'storeLoader_complete'],
+ 'theorems': ['budget_monotone', 'budget_monotone_le', 'batched_decision_sound', 'enough_budget_full', 'enough_budget_sound', 'enough_budget',
+              'batched_decision_sound_partial', 'loop_inv', 'storeLoader_complete', 'storeLoader_faithful'],
  'assumptions': ['the typed conditions (output of the Rust typechecker) are an input of the model, as for C14',
                  'schema validation of loaded entities is not modelled (stores are conformant)',
-                 'batched_decision_sound_partial and enough_budget carry the facts about interpret they need (soundness at the states of the '
-                 'loop incl. "missing = empty"; progress; boundedness; Bool-typed residuals) as explicit named hypotheses (SoundStates, LoopInv)',
+                 'batched_decision_sound has NO hypothesis about the loop states (SoundStates is discharged from C14 interpret_typeSafe and the '
+                 'proved lemma missing = empty, Tpe.eval_pad); its hypotheses are about the input: Faithful loader es (answers come from the '
+                 'store), TypedSafe (no node of a typed condition raises a type error on request + store: validation, as in C14) and '
+                 'TypedAgrees (typed condition evaluates like the policy condition)',
+                 'enough_budget_full has NO hypothesis about the loop either: progress (interpret_partial_unloaded), Bool-typed residuals '
+                 '(sinv_boolTyped; CondsBool: conditions are boolean-valued) and boundedness (interpret_uidsIn) are proved; its hypotheses: '
+                 'Universe U q es tps (U holds the ids of the request incl. context, of the typed conditions and of the attribute / tag values '
+                 'of the store - a checkable condition on the input), StepOk and Complete for the loader, TypedSafe / TypedAgrees / CondsBool, '
+                 'and that policy_residual_map succeeds; the bound is |U| (enough_budget_sound is the version with boundedness as hypothesis)',
                  'loaders that return an already loaded entity again hit the Duplicate error (known finding); theorems about them need StepOk']}
 
 TEXT = ('Lean theorems over the mirror of is_authorized_batched (empty partial store, all_literal_uids, load unseen, missing => empty entity, '
  'duplicate => error, re-interpret, stop when no Partial, decision table) on top of the TPE model, for arbitrary loaders: budget_monotone '
- '(full: definite classes are fixed points of interpret and the table is monotone), enough_budget (measure = unseen ids of the universe; '
- 'progress/boundedness of interpret as the named hypothesis LoopInv), batched_decision_sound_partial (the table lemma at the final state, '
- 'given TPE soundness at the loop states); tied to the code by a differential run for every small budget, the first deciding and the top '
+ '(full: definite classes are fixed points of interpret and the table is monotone), batched_decision_sound (every decision returned, for every '
+ 'budget and every faithful loader, is the ordinary decision: invariant SInv = the loaded store is completed by the real store padded with '
+ 'empty entities, every residual evaluates on each such completion like its typed condition (C14 interpret_typeSafe, composed over the '
+ 'rounds), and missing = empty (eval_pad) brings the evaluation back to the real store; hypotheses on the input only), enough_budget_full '
+ '(every budget above |U| yields the ordinary decision; measure = unseen ids of the universe; progress proved: a Partial residual under a '
+ 'concrete request and fully known entities mentions an unloaded id; Bool-typedness proved; boundedness proved: ids of an interpreted '
+ 'residual are ids of the input, the request or loaded values; U = ids of request, policies and store values), the older enough_budget / batched_decision_sound_partial under abstract '
+ 'invariants; tied to the code by a differential run for every small budget, the first deciding and the top '
  'budgets, plus the four clauses of the statement evaluated on the implementation for every budget 0..n+1 with exact and over-returning '
  'loaders and stores with missing entities.',
- 'proof over a hand-written model; soundness and progress of interpret enter as explicit hypotheses (C14 proves the former on a fragment); '
+ 'proof over a hand-written model; soundness and the budget bound need only input hypotheses (type safety of the typed conditions from '
+ 'validation, a faithful / complete loader whose rounds do not fail); '
  'correspondence sampled (harness/src/c15.rs); one genuine defect recorded (a loader that returns an already loaded entity again gets a '
  'duplicate-entity error instead of a decision)')
